@@ -47,6 +47,7 @@ type report struct {
 	KillPoints    int                      `json:"kill_point_runs"`
 	InjectFired   int                      `json:"kill_point_fired"`
 	KillPcs       map[string]int           `json:"kill_point_pcs_fired"`
+	Fatals        map[string]int           `json:"tool_fatal_exits"`
 	Rotations     int                      `json:"runs_with_rotation"`
 	LinkCollision int                      `json:"runs_with_link_eexist"`
 	OpenCollision int                      `json:"runs_with_open_eexist"`
@@ -235,7 +236,7 @@ func main() {
 		fmt.Fprintln(os.Stderr, err)
 		os.Exit(2)
 	}
-	R := report{Stops: map[string]int{}, ExitCodes: map[string]int{}, KillPcs: map[string]int{}}
+	R := report{Stops: map[string]int{}, ExitCodes: map[string]int{}, KillPcs: map[string]int{}, Fatals: map[string]int{}}
 	distinct := map[string]bool{}
 	for _, r := range results {
 		R.Scenarios++
@@ -257,6 +258,9 @@ func main() {
 				R.InjectFired++
 				R.KillPcs[r.Sc.Pc]++
 			}
+		}
+		if r.Fatal != "" {
+			R.Fatals[r.Fatal]++
 		}
 		if r.Creates > 1 {
 			R.Rotations++
